@@ -82,6 +82,8 @@ static void reg_sig_handler(int signo)
  */
 static pthread_key_t late_key;
 static int late_on[MAX_SCRIPT_THREADS], late_pauses[MAX_SCRIPT_THREADS];
+/* updater-only threads that never register as readers (synchronize_rcu() does not require it); in some runs nobody does */
+static int unreg[MAX_SCRIPT_THREADS];
 
 static void late_dtor(void *v)
 {
@@ -152,7 +154,8 @@ static void do_sync(int me, const char *what)
 	g = orc_gp_call(me);
 	F->synchronize_rcu();
 	orc_gp_done(g, what);
-	qsbr_open(me);
+	if (!unreg[me])
+		qsbr_open(me);
 }
 
 static void do_read(int me, struct op *op)
@@ -270,11 +273,12 @@ static void *gp_thread(void *arg)
 	usim_thread_name("script%d", me);
 	if (reg_mode && F->is_bp && sig_after[me])
 		usim_signal_plan(usim_tid(), 10, (uint64_t) sig_after[me]);
-	if (!F->is_bp)
+	if (!F->is_bp && !unreg[me])
 		F->register_thread();
 	if (F->is_bp && late_on[me])
 		pthread_setspecific(late_key, (void *) (long) (me + 1));
-	qsbr_open(me);
+	if (!unreg[me])
+		qsbr_open(me);
 	if (last < 0)
 		usim_quiet_vote();
 	for (i = 0; i < s->nops; i++) {
@@ -330,7 +334,7 @@ static void *gp_thread(void *arg)
 		op_stall_end();
 	}
 	qsbr_close(me);
-	if (!F->is_bp)
+	if (!F->is_bp && !unreg[me])
 		F->unregister_thread();
 	return NULL;
 }
@@ -338,6 +342,7 @@ static void *gp_thread(void *arg)
 static void gen(int live)
 {
 	int t, i, maxthr = usim_tier() ? 6 : 4, maxops = usim_tier() ? 8 : 5;
+	int nobody_registers = !reg_mode && rnd(8) == 0;
 
 	if (reg_mode)
 		maxthr = 8;
@@ -348,6 +353,7 @@ static void gen(int live)
 	for (t = 0; t < nthreads; t++) {
 		struct script *s = &scripts[t];
 		int role = rnd(3);	/* 0 reader-heavy, 1 updater-heavy, 2 mixed */
+		unreg[t] = !reg_mode && (nobody_registers || (role == 1 && rnd(4) == 0));
 		s->nops = 1 + rnd(maxops);
 		usim_describe("%s[", t ? "," : "");
 		for (i = 0; i < s->nops; i++) {
@@ -369,6 +375,10 @@ static void gen(int live)
 				static const int upd[] = { OP_UPDATE, OP_UPDATE, OP_SYNC, OP_LITMUS_W };
 				op->kind = pick(upd, 4);
 			}
+			if (unreg[t] && op->kind != OP_UPDATE && op->kind != OP_SYNC && op->kind != OP_LITMUS_W) {
+				static const int upd2[] = { OP_UPDATE, OP_SYNC, OP_SYNC, OP_LITMUS_W };
+				op->kind = pick(upd2, 4);
+			}
 			op->a = 1 + rnd(3);		/* nesting depth */
 			op->b = rnd(4);			/* pauses inside */
 			op->c = rnd(nthreads);		/* litmus pair read */
@@ -381,7 +391,7 @@ static void gen(int live)
 		usim_describe("]");
 		wave[t] = 0;
 		sig_after[t] = 0;
-		late_on[t] = F->is_bp && rnd(3) == 0;
+		late_on[t] = F->is_bp && !unreg[t] && rnd(3) == 0;
 		late_pauses[t] = (int) rnd(6);
 		if (reg_mode && F->is_bp) {
 			/* last one or two threads form a second wave started after everybody exited */
